@@ -141,9 +141,7 @@ func (e *Eng) execStmt(st *State, s ast.Stmt) *State {
 		st.defers = append(st.defers, deferEntry{call: s.Call, args: args})
 		return st
 	case *ast.GoStmt:
-		e.gap("go statement abstracted")
-		e.havocHeap(st)
-		return st
+		return e.execGo(st, s)
 	case *ast.EmptyStmt:
 		return st
 	case *ast.LabeledStmt:
@@ -204,6 +202,15 @@ func (e *Eng) execAssign(st *State, s *ast.AssignStmt) *State {
 		case *ast.TypeAssertExpr:
 			v := e.eval(st, r.X)
 			t := e.info.TypeOf(r.Type)
+			if sortOf(t) == "Iface" {
+				// assertion to an interface type: whether the dynamic type implements it is not modelled
+				okb := e.freshVal("implements", types.Typ[types.Bool])
+				e.assume(st, fmt.Sprintf("(=> %s (not (= (itag %s) 0)))", okb.T, v.T))
+				mv := scalar(e.define("ta", "Iface", fmt.Sprintf("(ite %s %s inil)", okb.T, v.T)), "Iface", t)
+				e.assign(st, s.Lhs[0], mv)
+				e.assign(st, s.Lhs[1], okb)
+				return st
+			}
 			ok := fmt.Sprintf("(= (itag %s) %d)", v.T, e.tagOf(t))
 			sub := e.branch(st, ok)
 			e.ifacePayloadFacts(sub, v, t)
@@ -709,4 +716,61 @@ func (e *Eng) ensureRunes() {
         (=> (not (runeok s i)) (and (= (runeat s i) 65533) (= (runew s i) 1)))
         (=> (or (and (<= 128 (sbyte s i)) (<= (sbyte s i) 193)) (>= (sbyte s i) 245)) (not (runeok s i)))))
    :pattern ((runeat s i)) :pattern ((runew s i)))))`)
+}
+
+// execGo: the spawned function's body is executed on a copy of the current state so that its call-site
+// obligations (gates, preconditions) are checked under the spawner's path condition, and the spawn rule is
+// imposed: no panic may leave a goroutine (it would kill the process). The spawner continues with the heap and
+// every variable the goroutine assigns unknown. Interleavings are not modelled.
+func (e *Eng) execGo(st *State, s *ast.GoStmt) *State {
+	fun := ast.Unparen(s.Call.Fun)
+	var lit *ast.FuncLit
+	if fl, ok := fun.(*ast.FuncLit); ok {
+		lit = fl
+	} else if id, ok := fun.(*ast.Ident); ok {
+		if v, ok := st.vars[e.info.ObjectOf(id)]; ok && v != nil && v.Lit != nil {
+			lit = v.Lit
+		}
+	}
+	var args []*Val
+	for _, a := range s.Call.Args {
+		args = append(args, e.eval(st, a))
+	}
+	if lit == nil {
+		e.gap("go statement on a non-literal function: effects havocked, spawn rule not checked (%s)", e.src(s.Call))
+		key, _, _ := calleeKey(e.info, s.Call)
+		if key != "" {
+			st.counters["go:"+key] = fmt.Sprintf("(+ %s 1)", counterOf(st, "go:"+key))
+		}
+		e.havocHeap(st)
+		return st
+	}
+	e.goOrd++
+	ord := e.goOrd
+	child := st.clone()
+	child.defers = nil
+	before := len(e.exits)
+	e.inGo++
+	e.execClosure(child, lit, args)
+	e.inGo--
+	// panics that escaped the goroutine body
+	var keep []Exit
+	for i, x := range e.exits {
+		if i >= before && x.Kind == ExitPanic {
+			if e.con != nil && (e.con.NoEscape || e.con.Safe || e.con.NoPanic || e.con.GoSafe) && x.St != nil {
+				e.oblige(x.St, "go", fmt.Sprintf("goroutine%d panic escapes", ord), "false", x.Pos)
+			}
+			continue
+		}
+		keep = append(keep, x)
+	}
+	e.exits = keep
+	for o := range e.assignedIn(lit) {
+		if _, ok := st.vars[o]; ok {
+			st.vars[o] = e.freshVal("go."+o.Name(), o.Type())
+		}
+	}
+	st.counters["go"] = fmt.Sprintf("(+ %s 1)", counterOf(st, "go"))
+	e.havocHeap(st)
+	return st
 }
